@@ -109,7 +109,7 @@ func tChunks(c *Case) ([][]byte, *tmsg) {
 	if c.Kind == "raw" {
 		var ch [][]byte
 		for _, h := range c.Raw {
-			ch = append(ch, unhex(h))
+			ch = append(ch, rawBytes(h))
 		}
 		return ch, nil
 	}
